@@ -108,6 +108,7 @@ const char* token_fault_name(int f)
     case TF_SIDE_EFFECT: return "side-effect";
     case TF_CHAN_ARITH: return "channel-arithmetic";
     case TF_BAD_TERNARY: return "bad-conditional";
+    case TF_OVERFLOW_LITERAL: return "overflow-literal";
     }
     return "?";
 }
@@ -186,6 +187,16 @@ FaultResult apply_token_fault(const std::string& text, const std::vector<Token>&
         // in declaring blocks the identifier may be the declared name or a type name; no guarantee there
         r.guaranteed_error = !decl_like && !binder;
         r.type_position = ti > 0 && tok(ti - 1) == ":";
+        break;
+    }
+    case TF_OVERFLOW_LITERAL: {
+        if (t.cls != 'n')
+            return r;
+        // (2147483648 is special-cased by the lexer for "-2147483648")
+        static const char* big[] = {"2147483649", "99999999999", "18446744073709551616", "4294967297"};
+        r.text = before(ti) + big[ti % 4] + after(ti);
+        r.applied = true;
+        r.guaranteed_error = !decl_like;
         break;
     }
     case TF_DROP_OPERAND: {
